@@ -5,6 +5,12 @@
 use vstd::prelude::*;
 use std::collections::VecDeque;
 verus! {
+/// `VecDeque::extend(vec)` (not used by the code today; present so that an edit using it is judged): appends at the BACK
+#[verifier::external_body]
+fn deque_extend_back(d: &mut std::collections::VecDeque<u64>, v: Vec<u64>)
+    ensures final(d)@ == old(d)@ + v@,
+{ unimplemented!() }
+
 
 #[derive(Copy, Clone)]
 pub struct Block {
